@@ -96,6 +96,15 @@ def c10Wiring : List String := Id.run do
 
 def c11 : List String := Id.run do
   let mut out : List String := []
+  -- a row does what its name says only if the function the macro generates for it forwards the call unchanged
+  for m in allExportMacros do
+    for wf in bools do
+      for (nv, first) in [("xconst_name", "DIMS"), ("xany_name", "a.len()")] do
+        match exportArmOf m wf nv with
+        | none => out := out ++ [s!"export macro {repr m} (arm with target features: {wf}) has no {nv} function"]
+        | some f =>
+          if !(f.callee == "$op" && f.callArgs == first :: f.params.map (·.1)) then
+            out := out ++ [s!"export macro {repr m} (arm with target features: {wf}), {nv} function: every routine generated by this arm calls {f.callee}({f.callArgs}) although its parameters are {f.params.map (·.1)} — operands reach the kernel in another order than the caller passed them (any non-commutative operation, or unequal lengths, shows it)"]
   for r in exports do
     if !(exportRowOk r && exportRowCfgOk r) then
       out := out ++ [s!"export whose name and binding disagree: {repr r}"]
